@@ -234,7 +234,7 @@ C02_RunSticky == [][(ev'.op = "is_running" /\ ev'.hadFalse) => ev'.res = FALSE]_
 FlagsSound == \A o \in Objs : (Used(o) /\ (objs[o].gone \/ objs[o].reused)) => ~Truth(o)
 
 (* ---------------- transition dump for the replayer ---------------------- *)
-DumpL == PrintT(<<"TR", ToJson([s |-> view, e |-> ev', t |-> view', l |-> TLCGet("level")])>>)
+DumpL == PrintT(<<"TR", ToJson(view), ToJson(ev'), ToJson(view'), TLCGet("level")>>)
 
 Bound == TRUE
 =============================================================================
